@@ -50,6 +50,13 @@ PROPS = {
         'trusted_base': L1_TRUST + ['drop is modelled as what the code does: a final sync whose closure frees the value (fact drop_is_sync_free)'],
         'assumptions': ['freed-exactly-once and no-use-after-free are observed by the payload monitors (drop counter, dead flag) on the real crate; the theorem gives the ordering that makes them true'],
     },
+    'C08': {
+        'coq': ['theories/SyncFut/PropsC08.vo', 'theories/Inst/C08_now.vo'],
+        'profiles': [prof('fsync', (100, 20), (2500, 60))],
+        'monitors': ['C08', 'C01', 'C02', 'C05'], 'liveness': True, 'panics': True,
+        'trusted_base': ['SyncFut model (coq/theories/SyncFut/Model.v): hand-written; the queue abstracted as one-at-a-time FIFO execution with the slot job possibly suspended (justified by C01/C02), the queue runner excluded while the polling task drains (justified by the ownership invariant); tied by translator facts and the run-time oracles'],
+        'assumptions': ['terminal-state form of "releases the queue" (no termination measure); a hand-written future that still owns captures after returning Ready would release them outside the slot (Desync::future_sync wraps the job in an async block, so this cannot happen through the safe API)'],
+    },
     'C09': {
         'correspondence': CORR_L1,
         'coq': ['theories/Props/C09.vo', 'theories/Inst/C09_now.vo'],
